@@ -5,8 +5,8 @@ import (
 	"sort"
 	"strings"
 
-	"verifharness/internal/gen"
-	"verifharness/internal/h"
+	"verifharness/pkg/gen"
+	"verifharness/pkg/h"
 
 	"github.com/dunglas/mercure"
 	"go.uber.org/zap"
